@@ -93,6 +93,7 @@ function* textModules(items, prefix, hostOf) {
   }
 }
 
+const LIT_SPREADS = ['spreadLitHole', 'spreadLitOne', 'spreadLitEmpty'];
 const CHILD_KINDS = ['text', 'textWs', 'textMulti', 'expr', 'exprStr', 'empty', 'comment', 'spread', 'spreadEmpty', 'el', 'frag', 'elWithKids', 'litNull', 'litBool', 'litNum', 'litStr', 'undef', 'tplStatic', 'spreadSet', 'textSpace'];
 function makeChild(b, rng, kind, st) {
   switch (kind) {
@@ -115,6 +116,10 @@ function makeChild(b, rng, kind, st) {
     case 'spread': { const g = b.global({ k: 'arr', v: [{ k: 'str', v: `sp${st.n++}` }, { k: 'sent' }] }); return C.spread(b.leaf(g), g); }
     // an iterable that is not an array: the spread child must still be copied into the child array
     case 'spreadSet': { const g = b.global({ k: 'setOf', v: [{ k: 'str', v: `ss${st.n++}` }, { k: 'sent' }] }); return C.spread(b.leaf(g), g); }
+    // a spread of an array literal is still a spread: holes count as (undefined) children, an empty literal is a written child
+    case 'spreadLitHole': { const g = b.global({ k: 'sent' }); const h = b.global({ k: 'str', v: `sl${st.n++}` }); const src = `[${g}, , ${h}]`; return C.spread(b.leaf(src), src); }
+    case 'spreadLitOne': { const g = b.global({ k: 'sent' }); const src = `[${g}]`; return C.spread(b.leaf(src), src); }
+    case 'spreadLitEmpty': return C.spread(b.leaf('[]'), '[]');
     case 'spreadEmpty': { const g = b.global({ k: 'arr', v: [] }); return C.spread(b.leaf(g), g); }
     case 'el': return C.el({ tag: { kind: 'html', name: 'i', src: 'i' }, attrs: [A.attr('id', { k: 'str', raw: `e${st.n++}` })], children: [], selfClose: true });
     case 'frag': return C.el({ tag: { kind: 'fragShort' }, attrs: [], children: [C.text(`f${st.n++}`)] });
@@ -190,11 +195,17 @@ export function* generate({ tier, seed }) {
     if (tier !== 'quick' && host !== 'b' && seq.length === 4 && rng.bool(0.95)) continue;
     yield emitChildCase(host, seq);
   }
+  // spreads of array literals: alone and beside every other kind
+  for (const host of [...HOSTS, ...SOLO_HOSTS]) for (const x of LIT_SPREADS) {
+    yield emitChildCase(host, [x]);
+    if (tier === 'quick' && host !== 'b' && rng.bool(0.5)) continue;
+    for (const k of [...CHILD_KINDS, ...LIT_SPREADS]) { yield emitChildCase(host, [x, k]); if (!SOLO_HOSTS.includes(host)) yield emitChildCase(host, [k, x, 'text']); }
+  }
   const nChildRand = tier === 'quick' ? 8000 : 150000;
   for (let i = 0; i < nChildRand; i++) {
     const len = 3 + rng.int(6);
     const kinds = [];
-    for (let j = 0; j < len; j++) kinds.push(rng.pick(CHILD_KINDS));
+    for (let j = 0; j < len; j++) kinds.push(rng.bool(0.08) ? rng.pick(LIT_SPREADS) : rng.pick(CHILD_KINDS));
     yield emitChildCase(rng.bool(0.1) ? rng.pick([...CONTENT_HOSTS, ...SOLO_HOSTS]) : rng.pick(HOSTS), kinds);
   }
 }
